@@ -56,6 +56,9 @@ CLAIMED = {
  "C18": dict(engine="E1", design="§5 C18", technique="bounded exhaustive enumeration of integer windows against literal limits",
      text="Every integer within 2^16 (quick) / 2^20 (thorough) of zero, every power of two and every type/range limit, plus all u32/i32 values (thorough), is pushed through every public conversion, comparison and serde_json path of U53/I54 and judged against independently written limits.",
      note="Values outside the windows are not visited; random draws are deliberately not used."),
+ "C19": dict(engine="E1+E4", design="§5 C19", technique="exhaustive enumeration of attribute placements compiled by rustc in one generated workspace (annotated / stripped twin), token and serde_json differential",
+     text="9 item kinds (named/tuple/unit struct, enum with unit/tuple/struct variants, union, alias, const, generic struct with where-clause, generic enum) × every #[typeshare(...)] argument list × for every member position every helper attribute list × neighbouring attribute before/after (quick: one neighbour at a time, 1375 cases; thorough: both neighbours and helpers on two members at once) × derive before/after #[typeshare]. Each case is compiled twice by rustc with the real typeshare-annotation macro; a harness attribute macro placed below #[typeshare] records the item's token trees, which must equal the stripped twin's, and serde_json output and cross-deserialisation must agree.",
+     note="One toolchain; serde 1.0.214. Members compiled out by cfg(any()) and serde-skipped tuple/enum members are compared on tokens only."),
  "C20": dict(engine="E1+S-cli", design="§5 C20", technique="exhaustive configuration matrix executed on the real binary vs the precedence reference model (CLI > file > default)",
      text="The complete 2^5 × 2^5 presence matrix of the five double-homed settings with pairwise distinct values × the four languages they affect (4096 runs); 16 file-only tables each loaded via -c and via discovery; config discovery from every cwd depth 0–3 with files at one or two ancestor levels with/without -c; -g for all 32 CLI subsets (reload equivalence, overwrite protection, default location). Effective values are read back from the generated code with the extractors.",
      note="Values are fixed distinct strings; tables are a fixed list of 16. The scratch directory's ancestors must not contain a typeshare.toml."),
@@ -89,6 +92,7 @@ def main():
                "source_commits":["9df0e9a","0d72a46","3c9be5a"],"add_only":True},
       "engines":[
         {"name":"E3","path":"/verif/models/WalkCollect.tla + /verif/mc/src/e3.rs","serves_properties":["C06","C07"],"kind_free_text":"TLA+ protocol model checked and dumped by TLC; every maximal path replayed as a forced schedule on the real binary through the cfg(typeshare_verif) hooks"},
+        {"name":"E4","path":"/verif/mc/src/props/c19.rs + /verif/mc/verif_dump","serves_properties":["C19"],"kind_free_text":"batch differential compile: all enumerated cases in one generated cargo workspace, built once by rustc and run once"},
         {"name":"E2","path":"/verif/mc/src/props/c17.rs","serves_properties":["C17"],"kind_free_text":"explicit-state BFS with visited set over real file-system states; transitions run the real binary"},
         {"name":"S-cli","path":"/verif/mc/src/cli.rs","serves_properties":["C06","C07","C08","C14","C17","C20"],"kind_free_text":"the real typeshare binary (hooks-on build) as a subprocess on scratch trees with a watchdog"},
         {"name":"E1","path":"/verif/mc/src/explore.rs","serves_properties":sorted(k for k,v in CLAIMED.items() if "E1" in v["engine"]),"kind_free_text":"stateless choice-sequence explorer (product / deviation-bounded), every case executed on the real code and judged by a reference model"},
